@@ -14,7 +14,7 @@ BUDGET_CALLS = 20000
 BUDGET_ROWS = 5e7
 
 events = collections.Counter()
-_state = {"active": False, "calls": 0, "rows": 0, "depth": 0}
+_state = {"active": False, "calls": 0, "rows": 0, "depth": 0, "budget_rows": None}
 _installed = False
 
 
@@ -30,7 +30,7 @@ def all_subclasses(cls):
 
 
 def begin_call():
-    _state.update(active=True, calls=0, rows=0)
+    _state.update(active=True, calls=0, rows=0, budget_rows=None)
 
 
 def end_call():
@@ -51,11 +51,19 @@ def _wrap_sampling(cls, name):
                 _state["rows"] += int(n) if n is not None else 0
             except Exception:
                 pass
-            if _state["calls"] > BUDGET_CALLS or _state["rows"] > BUDGET_ROWS:
+            if _state["budget_rows"] is None:
+                # the outermost call fixes the row budget: nested rejection with the generated acceptance rates (>= 12 %
+                # per level, three levels) needs up to ~600 proposals per requested point and parameter row
+                try:
+                    kk = max(1, len(kw.get("params"))) if kw.get("params") is not None else 1
+                    _state["budget_rows"] = max(BUDGET_ROWS, 3000.0 * (int(n) if n is not None else 0) * kk)
+                except Exception:
+                    _state["budget_rows"] = BUDGET_ROWS
+            if _state["calls"] > BUDGET_CALLS or _state["rows"] > _state["budget_rows"]:
                 _state["active"] = False
                 raise BudgetExceeded("outer sampling call needed more than %d inner proposals / %g proposal rows "
                                      "(stopped inside %s.%s after %d inner calls, %d rows)"
-                                     % (BUDGET_CALLS, BUDGET_ROWS, cls.__name__, name, _state["calls"], _state["rows"]))
+                                     % (BUDGET_CALLS, _state["budget_rows"], cls.__name__, name, _state["calls"], _state["rows"]))
         return orig(self, *a, **kw)
 
     wrapper._tpmon = True
